@@ -24,6 +24,9 @@ B.tqdm = lambda **kw: None
 
 def use_fakepd():
     from vk import fakepd
+    import os
+    if os.environ.get('VK_REAL_PANDAS'):
+        return fakepd                      # stub validation runs: leave the real pandas in place
     import topsim.core.monitor as M, topsim.core.simulation as SIM, topsim.user.telescope as T
     import topsim.user.schedule.dynamic_plan as DP, topsim.user.schedule.greedy as GR
     for m in (S, C, B, M, SIM, T, DP, GR):
